@@ -33,9 +33,15 @@ _CACHE = {}
 def inline_inherent(prefixes, exclude=()):
     """Inline predicate: inherent functions / free functions (not trait methods) whose path starts with one of
     `prefixes` are analysed in place - so that splitting a function into private helpers does not change the result."""
+    mods = tuple(p.split("::", 1)[-1] for p in prefixes)
+
     def pred(n, r):
-        if r in exclude or not r.startswith(tuple(prefixes)):
+        if r in exclude:
             return False
+        if not r.startswith(tuple(prefixes)):
+            # a function nested inside a trait method of the module (`fn helper` declared in the method body)
+            if not (r.startswith("<") and any(m in r for m in mods)):
+                return False
         b = prog().unit("scpi").by_npath().get(r) if hasattr(prog().unit("scpi"), "by_npath") else None
         if b is None:
             for u in prog().units:
@@ -45,7 +51,11 @@ def inline_inherent(prefixes, exclude=()):
                         break
                 if b is not None:
                     break
-        return b is not None and not b.impl_trait and not b.in_trait and b.kind in ("Fn", "AssocFn")
+        if b is None or b.kind not in ("Fn", "AssocFn"):
+            return False
+        if b.kind == "Fn" and b.parent_fn:
+            return True
+        return not b.impl_trait and not b.in_trait and not r.startswith("<")
     return pred
 
 
